@@ -15,6 +15,6 @@ import json, sys
 n, d = sys.argv[1], int(sys.argv[2])
 h = json.load(open('/verif/seeded/HISTORY.json'))
 if n not in h:
-    h[n] = {'round': {'b': 2, 'c': 3, 'd': 4, 'e': 5, 'f': 6}.get(n[3:4], 1), 'first_verdict': 'DETECTED' if d else 'MISSED', 'rule_added': ''}
+    h[n] = {'round': {'b': 2, 'c': 3, 'd': 4, 'e': 5, 'f': 6, 'g': 7}.get(n[3:4], 1), 'first_verdict': 'DETECTED' if d else 'MISSED', 'rule_added': ''}
     json.dump(h, open('/verif/seeded/HISTORY.json', 'w'), indent=1, sort_keys=True)
 PY
